@@ -176,7 +176,7 @@ def _proposals(case, mdl, tr, k):
         if kind == 'constant':
             a, d = U.si('Time', *r['start']), U.si('TimeInterval', *r['duration'])
             t = tr.t[k]
-            if min(abs(t - a), abs(t - (a + d))) <= 1e-9 * max(a + d, 1e-300):
+            if min(abs(t - a), abs(t - (a + d))) <= 1e-9 * max(a + d, 1e-300) and not (t == 0 and a == 0):
                 out.append('amb')
             else:
                 out.append(r['value'] if RU.constant_active(t, a, d) else None)
